@@ -128,6 +128,22 @@ func (n *Node) Listener() blockchain.Listener {
 	return nil
 }
 
+func (n *Node) listenerSnapshot() map[blockchain.Listener]bool {
+	m := map[blockchain.Listener]bool{}
+	for l := range n.listeners {
+		m[l] = true
+	}
+	return m
+}
+
+func (n *Node) dropListenersNotIn(keep map[blockchain.Listener]bool) {
+	for l := range n.listeners {
+		if !keep[l] {
+			delete(n.listeners, l)
+		}
+	}
+}
+
 // NewBlock builds (does not connect) a block on parent with the given transactions; the first
 // transaction must be a coinbase.
 func (n *Node) NewBlock(parent *Block, txs []*wire.MsgTx) *Block {
